@@ -27,6 +27,7 @@ def h05_mem(S, steady_load=False):
 
     delta = S.real("due_after_enqueue_s", -2, 3)          # T = enqueue instant + delta
     phase = S.real("listen_start_s", 0, Fraction(11, 10))  # consumer starts listening this long after the enqueue
+    far_first = (not steady_load) and S.flag("a_message_due_in_an_hour_was_scheduled_first")
     out = {}
 
     async def main(loop):
@@ -34,6 +35,9 @@ def h05_mem(S, steady_load=False):
         await w.open(record=False)
         T_us = T0 + delta * SEC
         key = RoutingKey(topic="job", queue="default", id_="d1")
+        if far_first:
+            # a message due in an hour was scheduled before ours and keeps waiting
+            await w.broker.enqueue(RoutingKey(topic="job", queue="default", id_="far"), "p", _params(S, T0 + 3600 * SEC))
         await w.broker.enqueue(key, "p", _params(S, T_us))
         pl = w.places()
         S.check("enqueued-into-delayed-category", place_names(pl, "d1") == ["delayed"])
@@ -94,6 +98,7 @@ def h05_redis(S, via="enqueue"):
     clock = PinnedClock(enq)
     out = {}
     S.tag("via", via)
+    twin = via == "enqueue" and S.flag("two_messages_due_at_the_same_instant")
 
     async def main(loop):
         srv = fr.FakeServer(clock=lambda: clock.time())
@@ -102,6 +107,9 @@ def h05_redis(S, via="enqueue"):
         params = _params(S, T, ts_us=enq)
         if via == "enqueue":
             await br.enqueue(key, "p", params)
+            if twin:
+                # a second message due at the very same instant
+                await br.enqueue(RoutingKey(topic="job", queue="default", id_="d2"), "p", _params(S, T, ts_us=enq))
         else:
             # a held message is requeued (retry back-off) or rejected with a due time
             import repid.data._parameters as P
@@ -122,6 +130,8 @@ def h05_redis(S, via="enqueue"):
         cons.POLLING_WAIT = 0
         out["got"] = await cons.consume_or_none()
         out["places_after"] = fr.redis_places(srv)
+        if twin and out["got"] is not None:
+            out["got_twin"] = await cons.consume_or_none()
         dcons = br.get_consumer("default", ["job"], None, MessageCategory.DELAYED)
         dcons.POLLING_WAIT = 0
         out["got_delayed"] = await dcons.consume_or_none()
@@ -136,7 +146,11 @@ def h05_redis(S, via="enqueue"):
     if out["got"] is not None:
         S.cover("delivered")
         S.check("never-delivered-before-due", now >= T - MS, info="delivered to a normal consumer before its due time")
-        S.check("held-once", place_names(out["places_after"], "d1") == ["processing"])
+        if twin:
+            S.check("every-due-message-is-delivered", out.get("got_twin") is not None,
+                    info="two messages were due; the consumer's next look returned nothing")
+        else:
+            S.check("held-once", place_names(out["places_after"], "d1") == ["processing"])
     else:
         S.cover("held-back")
         S.check("not-forgotten-once-due", now < T + SEC, info="due for more than a second and still not delivered")
